@@ -6,6 +6,7 @@ import (
 	"path/filepath"
 	"strings"
 	"sync"
+	"unicode/utf8"
 
 	"github.com/hattya/go.sh/ast"
 	"github.com/hattya/go.sh/interp"
@@ -116,6 +117,21 @@ var c15Modes = []struct {
 	m    interp.ExpMode
 }{{"default", 0}, {"quote", interp.Quote}, {"literal", interp.Literal}, {"arith", interp.Arith}, {"assign", interp.Assign}, {"assign+literal", interp.Assign | interp.Literal}}
 
+// c15ExtraModes: every combination of the five mode bits that c15Modes and the plain Pattern pass do not cover.
+var c15ExtraModes = func() []interp.ExpMode {
+	base := map[interp.ExpMode]bool{interp.Pattern: true}
+	for _, m := range c15Modes {
+		base[m.m] = true
+	}
+	var out []interp.ExpMode
+	for m := interp.ExpMode(0); m < 32; m++ {
+		if !base[m] {
+			out = append(out, m)
+		}
+	}
+	return out
+}()
+
 func c15Env(s string, variant int) *interp.ExecEnv {
 	env := interp.NewExecEnv("sh", "ARG1", "ARG 2", s)
 	env.Set("HOME", "/HOMEMARK")
@@ -195,6 +211,43 @@ func c15Exec(c *core.Ctx, cs c15Case) {
 				}
 				if !mapsEqual(snap, c11Snapshot(env)) {
 					c.Violation("env-changed", fmt.Sprintf("%s mode=%s", key, m.name), "variable store unchanged", "changed", "")
+				}
+			}
+			// the other 25 combinations of the five mode bits ("every ExpMode"): Literal
+			// wins over Pattern, Pattern over the rest; without Pattern (or with Literal)
+			// the result is [s], with it a pattern that matches s and nothing else.
+			// Short strings see all of them, the others three per quoting in rotation.
+			if v == 0 {
+				for k, m := range c15ExtraModes {
+					if utf8.RuneCountInString(s) > 2 && (k+idx+len(qname))%8 != 0 {
+						continue
+					}
+					env := c15Env(s, variant)
+					got, err := env.Expand(args[1], m)
+					c.Eval(1)
+					c.Count("expand-extra-modes", 1)
+					mk := fmt.Sprintf("%s mode=%05b env=%d", key, int(m), variant%4)
+					if m&interp.Literal != 0 || m&interp.Pattern == 0 {
+						if err != nil || len(got) != 1 || got[0] != s {
+							c.Violation("identity", mk, fmt.Sprintf("[%q]", s), fmt.Sprintf("%q err=%v", got, err), "source: "+q(src))
+						}
+						continue
+					}
+					if err != nil || len(got) != 1 {
+						c.Violation("pattern", mk, "one pattern", fmt.Sprintf("%q err=%v", got, err), "")
+						continue
+					}
+					pp := refpat.Parse(got[0])
+					if pp.Class != refpat.OK || !pp.MatchWhole([]rune(s)) {
+						c.Violation("pattern", mk, "a pattern matching exactly "+fmt.Sprintf("%q", s), fmt.Sprintf("%q", got[0]), "")
+						continue
+					}
+					for _, t := range c15Variants(s) {
+						if pp.MatchWhole([]rune(t)) {
+							c.Violation("pattern", mk, "a pattern matching only "+fmt.Sprintf("%q", s), fmt.Sprintf("%q also matches %q", got[0], t), "")
+							break
+						}
+					}
 				}
 			}
 			// pattern mode: the result matches s and nothing else
@@ -296,8 +349,8 @@ func init() {
 	core.Register(&core.Engine{
 		ID:          "C15",
 		Level:       "exploration",
-		Technique:   "runtime monitoring: identity oracle over exhaustive-short and random strings x 4 literal quotings x 7 expansion modes in adversarial environments (IFS made of the string's own characters, a directory holding a file for every 1-2 symbol name), end to end through parser and Expand",
-		Rule:        "a case is a string s; exhaustive over all strings of <=3 (thorough <=4) symbols of the 29-symbol alphabet {blank tab newline ' \" \\ $ ` * ? [ ] ~ # & | ; < > ( ) { } ! a = : / é}, then random strings of <=24 symbols with multi-byte and control characters; each is written in single, double, backslash and mixed quoting, parsed, and expanded in modes default/Quote/Literal/Arith/Assign/Assign|Literal (result must be [s]) and Pattern (result must match s and none of its one-rune edits, judged by refpat), under 2 of 4 environments. distinct_nontrivial = distinct strings.",
+		Technique:   "runtime monitoring: identity oracle over exhaustive-short and random strings x 4 literal quotings x all 32 expansion-mode bit combinations in adversarial environments (IFS made of the string's own characters, a directory holding a file for every 1-2 symbol name), end to end through parser and Expand",
+		Rule:        "a case is a string s; exhaustive over all strings of <=3 (thorough <=4) symbols of the 29-symbol alphabet {blank tab newline ' \" \\ $ ` * ? [ ] ~ # & | ; < > ( ) { } ! a = : / é}, then random strings of <=24 symbols with multi-byte and control characters; each is written in single, double, backslash and mixed quoting, parsed, and expanded in modes default/Quote/Literal/Arith/Assign/Assign|Literal (result must be [s]) and Pattern (result must match s and none of its one-rune edits, judged by refpat); the remaining 25 combinations of the five mode bits are judged the same way (Literal wins over Pattern, Pattern over the rest): all of them for strings of <=2 symbols, three per quoting in rotation otherwise, under 2 of 4 environments. distinct_nontrivial = distinct strings.",
 		Assumptions: []string{"valid UTF-8 strings without NUL", "refpat judges the Pattern-mode clause"},
 		Gen:         c15Gen,
 		Replay:      func(c *core.Ctx, raw []byte) { core.ReplayOne(c, raw, c15Exec) },
